@@ -14,6 +14,31 @@
 using namespace vp;
 using namespace vpgen;
 
+// Schedule widening for the flusher / shutdown hand-shake: every pthread_cond_wait of the process can be
+// entered a little late (the caller still holds the mutex), which stretches the window between a waiter's
+// last look at its predicate and its actually going to sleep from nanoseconds to the generated delay.
+// A correct notifier changes the predicate under that mutex, so nothing can slip into the window.
+// Not in TSan builds: the sanitizer owns that symbol there.
+#if defined(__has_feature)
+#if __has_feature(thread_sanitizer)
+#define VP_NO_CONDWAIT_HOOK 1
+#endif
+#endif
+#if defined(__SANITIZE_THREAD__)
+#define VP_NO_CONDWAIT_HOOK 1
+#endif
+#include <dlfcn.h>
+#include <atomic>
+static std::atomic<int> g_condwait_delay_us{0};
+#ifndef VP_NO_CONDWAIT_HOOK
+extern "C" int pthread_cond_wait(pthread_cond_t* c, pthread_mutex_t* m) {
+  static auto real = (int (*)(pthread_cond_t*, pthread_mutex_t*))dlsym(RTLD_NEXT, "pthread_cond_wait");
+  int d = g_condwait_delay_us.load(std::memory_order_relaxed);
+  if (d > 0) usleep((useconds_t)d);
+  return real(c, m);
+}
+#endif
+
 namespace {
 
 constexpr size_t kCap = 1024 * 1024;
@@ -97,6 +122,11 @@ Json::Value gen() {
   c["sink"]["after"] = P(50) ? 0 : R(0, 200000);
   c["sink"]["slow_us"] = R(1, 200);
   c["kmsg"] = P(50);
+  // late entry into every condition wait, and a short random pause before shutdown (asan build only)
+  if (P(35)) {
+    c["condwait_delay_us"] = R(100, 4000);
+    c["pre_shutdown_us"] = R(0, 6000);
+  }
   return c;
 }
 
@@ -122,6 +152,7 @@ Verdict run(const Json::Value& c) {
   int np = c["producers"].size();
   std::vector<int> acceptedCount(np, 0);
   size_t kmsgSent = 0;
+  g_condwait_delay_us = c.get("condwait_delay_us", 0).asInt();
   {
     auto log = Oomd::Log::get_for_unittest(pfd[1], sink, false);
     std::vector<std::thread> th;
@@ -161,11 +192,14 @@ Verdict run(const Json::Value& c) {
       });
     }
     for (auto& t : th) t.join();
+    if (c.isMember("pre_shutdown_us")) std::this_thread::sleep_for(std::chrono::microseconds(c["pre_shutdown_us"].asInt()));
     // all producers are done; whatever was accepted must reach the sink before
     // ~Log returns. A blocked sink is released first (a sink blocked for ever
     // keeps the destructor waiting by design).
     buf.release();
   } // ~Log (closes the kmsg fd it was given)
+  g_condwait_delay_us = 0;
+  if (c.isMember("condwait_delay_us")) v.labels.push_back("late_cond_wait");
   // kmsg records
   std::string kmsg;
   {
